@@ -274,6 +274,25 @@ pub fn check(t: &Triple, obs: &mut Obs) -> Result<(), String> {
     Ok(())
 }
 
+/// triples around a magnitude: two short versions whose one number differs slightly and a long
+/// (many-component) version in between
+fn enumerate_magnitudes(_t: Tier) -> Box<dyn Iterator<Item = Triple>> {
+    let ns = crate::engine::gen::magnitude_neighbours(i64::MAX as u64);
+    let mut out = vec![];
+    for w in ns.windows(3) {
+        let (x, y, z) = (w[0], w[1], w[2]);
+        for (a, b, c) in [
+            (format!("1.{}", x), format!("1.{}.0.0.0.0.0.0.0.1", x), format!("1.{}", y)),
+            (format!("1.{}", x), format!("1.{}.0.0.0.0.0.0.0.1", y), format!("1.{}", z)),
+            (format!("{}", y), format!("{}.0rc1", y), format!("{}", x)),
+            (format!("1.0nb{}", x), format!("1.0.0.0.0.0.0.0.0.0nb{}", y), format!("1.0nb{}", z)),
+        ] {
+            out.push(Triple { a, b, c });
+        }
+    }
+    Box::new(out.into_iter())
+}
+
 pub fn property() -> Property {
     Property {
         id: "C03",
@@ -285,7 +304,9 @@ pub fn property() -> Property {
             triple_strategy,
             |t| t.pick(80_000, 1_500_000),
             check,
-        ), crate::fuzz::replay_stream(),
+        ),
+            enumerated_stream("magnitudes", "two versions whose one number lies next to a 2^k / 10^k and a many-component version in between", enumerate_magnitudes, check),
+            crate::fuzz::replay_stream(),
         ],
         selfcheck: || Ok(()),
         hang_is_violation: false,
